@@ -2045,6 +2045,9 @@ impl<const N: usize> ScenN<N> {
                 "open" => pearl::verif::OpKind::Open,
                 "write" => pearl::verif::OpKind::Write,
                 "sync" => pearl::verif::OpKind::Sync,
+                // `fault taskend <nth> index_dump_task pause:<gate>`: the dump task of the worker stays unfinished
+                // (all its work done, locks released) until the gate is released; multi-thread runtime only
+                "taskend" => pearl::verif::OpKind::TaskEnd,
                 _ => return "bad-op".into(),
             };
             let nth: u64 = toks[2].parse().unwrap_or(0);
@@ -2058,7 +2061,11 @@ impl<const N: usize> ScenN<N> {
                 let gate: u64 = g.parse().unwrap_or(1);
                 std::thread::spawn(move || {
                     std::thread::sleep(Duration::from_secs(8));
-                    pearl::verif::release(gate);
+                    // (only an operation that is still paused is let go: a release nobody waits for would stay behind
+                    // and open the gate of a later scenario of the same process)
+                    if pearl::verif::paused_gates().contains(&gate) {
+                        pearl::verif::release(gate);
+                    }
                 });
                 pearl::verif::Action::Pause(gate)
             } else {
@@ -2537,9 +2544,23 @@ impl<const N: usize> ScenN<N> {
                 "ok".into()
             }
             "free" => {
-                let _ = st.free_excess_resources().await;
-                if !toks.contains(&"@nodrain") {
+                // `free`: one dump request, served by the worker.  A request that finds the task of an earlier pass
+                // not yet reported as finished is deferred by the worker (by the configured interval, an hour by
+                // default); the step stands for "a pass was started by the request", so it asks again until the
+                // worker did start one (at most 5 s; `@once`: exactly one request, whatever becomes of it)
+                let t_end = tokio::time::Instant::now() + Duration::from_secs(5);
+                loop {
+                    let refused = pearl::verif::dump_requests_refused();
+                    let _ = st.free_excess_resources().await;
+                    if toks.contains(&"@nodrain") {
+                        break;
+                    }
                     Self::drain(st).await;
+                    if toks.contains(&"@once") || pearl::verif::dump_requests_refused() == refused
+                        || tokio::time::Instant::now() > t_end {
+                        break;
+                    }
+                    tokio::time::sleep(Duration::from_millis(2)).await;
                 }
                 "ok".into()
             }
@@ -2612,6 +2633,11 @@ impl<const N: usize> ScenN<N> {
                 format!("n={} short={}", st.corrupted_blobs_count(), short)
             }
             "settle" => Self::settle(st).await,
+            "dumpstat" => {
+                // dump requests refused so far in this process (a dump task was running) and the gates on which something is paused
+                Self::drain(st).await;
+                format!("#dumpstat refused={} paused={:?}", pearl::verif::dump_requests_refused(), pearl::verif::paused_gates()).replace(' ', "").replace("#dumpstat", "#dumpstat ")
+            }
             "quiesce" => {
                 Self::quiesce(st).await;
                 "ok".into()
@@ -2658,6 +2684,7 @@ impl<const N: usize> ScenN<N> {
                                 format!("W{}:{}:{}{}", class, e.offset, e.len, inj)
                             }
                         }
+                        pearl::verif::OpKind::TaskEnd => continue,   // (never recorded)
                     };
                     let id: u64 = if f.len() == 3 { f[1].parse().unwrap_or(u64::MAX) } else { u64::MAX };
                     let open_key = if matches!(e.kind, pearl::verif::OpKind::Open) { Some((id, is_index)) } else { None };
@@ -2972,6 +2999,8 @@ pub fn run_lines(lines: &[String], base: &Path, keep: bool, out: &mut dyn FnMut(
                 s.finish(keep);
             }
             pearl::verif::clear_failpoints();
+            // (gate releases left over from the previous scenario must not open a gate of this one)
+            pearl::verif::reset_gates();
             let _ = pearl::verif::take_events();
             let cfg = Cfg::parse(&toks[1..]);
             let dir = base.join(format!("pearl-verif-{}-{}", pid, n));
